@@ -72,6 +72,13 @@ fn main() {
             runq::cleanup_tmp();
         }
         "c14long" => {
+            if args.get(2).map(|s| s.as_str()) == Some("chain") {
+                // harness c14long chain <kind> <n> <parse|exec>: an operator chain without brackets (finding D75)
+                let kind: usize = args.get(3).and_then(|s| s.parse().ok()).unwrap_or(0);
+                let n: usize = args.get(4).and_then(|s| s.parse().ok()).unwrap_or(200);
+                c14::chain_child(kind, n, args.get(5).map(|s| s.as_str()) == Some("exec"));
+                return;
+            }
             let kind: usize = args.get(2).and_then(|s| s.parse().ok()).unwrap_or(0);
             let n: usize = args.get(3).and_then(|s| s.parse().ok()).unwrap_or(1000);
             c14::long_child(kind, n);
@@ -84,7 +91,8 @@ fn main() {
         "tzscan" => {
             let seed: u64 = args.get(2).and_then(|s| s.parse().ok()).unwrap_or(1);
             let n: usize = args.get(3).and_then(|s| s.parse().ok()).unwrap_or(1000);
-            c09::tzscan(seed, n);
+            let n_composed: usize = args.get(4).and_then(|s| s.parse().ok()).unwrap_or(200);
+            c09::tzscan(seed, n, n_composed);
             runq::cleanup_tmp();
         }
         "tables" => {
